@@ -25,36 +25,106 @@ func init() {
 
 func ruleC03_8(c *Ctx) {
 	const R = "R-C03-8"
-	guardedAdd := func(name string, wantHas bool) {
+	// guardedAdd: the helper builds a fresh set and adds an element of the ranged operand exactly where the membership
+	// test in the other operand has the wanted outcome. "Add" is res.Add(e) or res[e] = struct{}{}; the membership test
+	// is other.Has(e) or the comma-ok lookup other[e]; the fresh set is NewSet() or make(Set, ...). For the symmetric
+	// Intersection the ranged / tested operands may be chosen per call (the smaller one is ranged), as long as they are
+	// the two different operands on every path.
+	guardedAdd := func(name string, wantHas bool, symmetric bool) {
 		f := c.lookup(name)
 		if f == nil {
 			c.undecided(R, name, "anchor", 0, "not found")
 			return
 		}
-		n := 0
+		type addSite struct {
+			in   ssa.Instruction
+			res  ssa.Value
+			elem ssa.Value
+		}
+		var adds []addSite
 		for _, add := range callsIn(f, "(in_toto.Set).Add") {
-			n++
-			elem := resolve(add.Common().Args[1], add)
-			ok := false
-			for _, has := range callsIn(f, "(in_toto.Set).Has") {
-				a := has.Common().Args
-				if org(a[0]) == "p1" && resolve(a[1], has) == elem && c.condAt(has.Value(), wantHas, add.Block()) {
-					ok = true
+			adds = append(adds, addSite{add, resolve(add.Common().Args[0], add), resolve(add.Common().Args[1], add)})
+		}
+		for _, b := range f.Blocks {
+			for _, in := range b.Instrs {
+				if mu, ok := in.(*ssa.MapUpdate); ok && typeStr(mu.Map.Type()) == "in_toto.Set" {
+					adds = append(adds, addSite{mu, resolve(mu.Map, mu), resolve(mu.Key, mu)})
 				}
 			}
-			fresh := org(add.Common().Args[0]) == "in_toto.NewSet(nil)"
-			c.check(ok && fresh && org(elem) == "key(p0)", R, name, "res.Add(elem) guard", add.Pos(), "elem of the receiver, added to a fresh set only where other.Has(elem) is "+boolStr(wantHas),
+		}
+		isFresh := func(v ssa.Value) bool {
+			if _, ok := v.(*ssa.MakeMap); ok {
+				return true
+			}
+			return org(v) == "in_toto.NewSet(nil)"
+		}
+		// operand pairs (ranged, tested) that are {receiver, argument}
+		operandsOK := func(ranged, tested ssa.Value) bool {
+			p0, p1 := ssa.Value(f.Params[0]), ssa.Value(f.Params[1])
+			if ranged == p0 && tested == p1 {
+				return true
+			}
+			if !symmetric {
+				return false
+			}
+			if ranged == p1 && tested == p0 {
+				return true
+			}
+			rp, ok1 := ranged.(*ssa.Phi)
+			tp, ok2 := tested.(*ssa.Phi)
+			if !ok1 || !ok2 || rp.Block() != tp.Block() || len(rp.Edges) != len(tp.Edges) {
+				return false
+			}
+			for i := range rp.Edges {
+				a, b := rp.Edges[i], tp.Edges[i]
+				if !((a == p0 && b == p1) || (a == p1 && b == p0)) {
+					return false
+				}
+			}
+			return true
+		}
+		for _, ad := range adds {
+			// the element is the key of a range over some operand
+			var ranged ssa.Value
+			if ex, ok := ad.elem.(*ssa.Extract); ok && ex.Index == 1 {
+				if nx, ok := ex.Tuple.(*ssa.Next); ok {
+					if rg, ok := nx.Iter.(*ssa.Range); ok {
+						ranged = resolve(rg.X, rg)
+					}
+				}
+			}
+			ok := false
+			if ranged != nil {
+				for _, has := range callsIn(f, "(in_toto.Set).Has") {
+					a := has.Common().Args
+					if resolve(a[1], has) == ad.elem && operandsOK(ranged, resolve(a[0], has)) && c.condAt(has.Value(), wantHas, ad.in.Block()) {
+						ok = true
+					}
+				}
+				for _, b := range f.Blocks {
+					for _, in := range b.Instrs {
+						lk, isLk := in.(*ssa.Lookup)
+						if !isLk || !lk.CommaOk || resolve(lk.Index, lk) != ad.elem || !operandsOK(ranged, resolve(lk.X, lk)) {
+							continue
+						}
+						if okv := extractOf(lk, 1); okv != nil && c.condAt(okv, wantHas, ad.in.Block()) {
+							ok = true
+						}
+					}
+				}
+			}
+			c.check(ok && isFresh(ad.res), R, name, "res.Add(elem) guard", ad.in.Pos(), "elem of one operand, added to a fresh set only where the other operand has it: "+boolStr(wantHas),
 				"an element is added without the membership test other.Has(elem) == "+boolStr(wantHas))
 		}
-		if n != 1 {
+		if len(adds) != 1 {
 			c.bad(R, name, "exactly one Add", f.Pos(), "unexpected number of Add calls")
 		}
 		for _, r := range returnsOf(f) {
-			c.check(org(r.Results[0]) == "in_toto.NewSet(nil)", R, name, "returns the fresh set", instrPos(r), "NewSet()", "returns "+short(org(r.Results[0])))
+			c.check(isFresh(resolve(r.Results[0], r)), R, name, "returns the fresh set", instrPos(r), "NewSet() / make(Set)", "returns "+short(org(r.Results[0])))
 		}
 	}
-	guardedAdd("(in_toto.Set).Intersection", true)
-	guardedAdd("(in_toto.Set).Difference", false)
+	guardedAdd("(in_toto.Set).Intersection", true, true)
+	guardedAdd("(in_toto.Set).Difference", false, false)
 	if f := c.lookup("(in_toto.Set).Has"); f != nil {
 		ok := false
 		for _, r := range returnsOf(f) {
